@@ -186,7 +186,9 @@ func c05Compare(p netip.Prefix, err error, want c05Pfx, what string) {
 // c05Root appends the root with symbolic case; the joining byte before it is
 // arbitrary ASCII when join is true (so "xin-addr.arpa" is in the family).
 func c05Root(b []byte, root string, needJoin bool) []byte {
-	if needJoin {
+	// with labels in front the joining byte is arbitrary; without any, the
+	// root may still be preceded by one arbitrary byte ("xip6.arpa")
+	if needJoin || verifrt.Bool2() {
 		j := verifrt.Byte()
 		verifrt.Assume(j < 0x80)
 		b = append(b, j)
